@@ -105,6 +105,11 @@ MatrixClauses(e) ==
       \cup (IF \A i \in Ix, j \in Ix, n \in 1..Len(e.nums) :
                  Close(e.v[i][j][n], Mul(e.nums[n], e.f[i][j]), 7)
             THEN {} ELSE {"Proportional"})
+      \* a numeric argument that is zero (0, 0.0, -0.0) is a value, not an omitted argument:
+      \* only omitting num yields the factor
+      \cup (IF \A i \in Ix, j \in Ix, n \in 1..Len(e.nums) : IsZero(e.nums[n]) => IsZero(e.v[i][j][n])
+            THEN {} ELSE {"ZeroMapsToZero"})
+      \cup (IF \E n \in 1..Len(e.nums) : IsZero(e.nums[n]) THEN {} ELSE {"MachineryNoZeroProbe"})
       \cup (IF \A i \in Ix, j \in Ix : Positive(e.f[i][j]) THEN {} ELSE {"PositiveFactor"})
 
 \* Rankine reading of x on scale u, in Dec (exact constants)
